@@ -199,10 +199,19 @@ func (p *CPU) execInst(bus *device.Bus, as abi.As, arg *abi.AsRawArgument) error
 	case riscv.AANDI:
 		p.RegX[arg.Rd] = p.RegX[arg.Rs1] & RVUInt(arg.Imm)
 	case riscv.ASLLI:
+		if RVUInt(arg.Imm) > shamtMask {
+			return fmt.Errorf("%s: illegal shamt %d", riscv.AsString(as, ""), arg.Imm)
+		}
 		p.RegX[arg.Rd] = p.RegX[arg.Rs1] << arg.Imm
 	case riscv.ASRLI:
+		if RVUInt(arg.Imm) > shamtMask {
+			return fmt.Errorf("%s: illegal shamt %d", riscv.AsString(as, ""), arg.Imm)
+		}
 		p.RegX[arg.Rd] = p.RegX[arg.Rs1] >> arg.Imm
 	case riscv.ASRAI:
+		if RVUInt(arg.Imm) > shamtMask {
+			return fmt.Errorf("%s: illegal shamt %d", riscv.AsString(as, ""), arg.Imm)
+		}
 		p.RegX[arg.Rd] = RVUInt(RVInt(p.RegX[arg.Rs1]) >> arg.Imm)
 	case riscv.AADD:
 		p.RegX[arg.Rd] = p.RegX[arg.Rs1] + p.RegX[arg.Rs2]
